@@ -518,6 +518,16 @@ def eventHandlerAF (allowFailure : Nat → Binding → Bool) (hooks : List Hook)
       | none => (.err .propError, some (h, b))
       | some r => (.resp r, some (h, b))
 
+/-- does `HandleEvent` leave `AllowFailure` false in every `BindingExecutionInfo` it returns (not set,
+or the literal `false`)? Regenerated from the source on every run. -/
+def allowFailureNeverSet : Bool :=
+  !ShellOp.Facts.c14HandleEventAllowFailure.isEmpty &&
+    ShellOp.Facts.c14HandleEventAllowFailure.all (fun e => e == "false" || e == "<absent>")
+
+/-- is the `admissionResponse` prop stored after every step of `handleRunHook` that can return an
+error (no such statement follows the `SetProp`)? Regenerated from the source on every run. -/
+def propStoredLast : Bool := ShellOp.Facts.c14RunHookFailsAfterProp.isEmpty
+
 /-- Seeded variant (C14-w6m2, half A): the prop is stored right after the hook run, before the
 object patch / metric operations are applied -/
 def taskPropEarly (o : Outcome) : Option HookResp :=
